@@ -16,8 +16,100 @@ func init() {
 	// the interruption is a store error (before the write lands, or after it landed) instead of the death of the
 	// process: the operation goes on and reports whatever it reports; a bundle may only be visible if it is complete
 	Register(&Scenario{Prop: "C06", Name: "store-error-upload", Strict: true, Quick: 5, Thorough: 6, Run: func(rc *RunCtx) *simkit.Violation { return runC06Upload(rc, true) }})
+	Register(&Scenario{Prop: "C06", Name: "uploaders-with-one-bundle-id", Strict: true, Quick: 2, Thorough: 3, Run: runC06SameID})
 	Register(&Scenario{Prop: "C06", Name: "crash-label", Strict: true, Quick: 2, Thorough: 2, Run: runC06Label})
 	Register(&Scenario{Prop: "C06", Name: "crash-upload-enumerated", Strict: true, Quick: 1, Thorough: 3, Run: runC06Enum})
+}
+
+// runC06SameID: two or three uploaders are given the same bundle id (uploads that preserve an id: a migration job started
+// twice) and run concurrently with different trees. At most one reports success; a bundle is visible only if it is
+// complete - it downloads to the tree of an uploader that reported success - and nothing of it is written once its
+// descriptor exists (per-event invariant).
+func runC06SameID(rc *RunCtx) *simkit.Violation {
+	const prop = "C06"
+	w := rc.W
+	t := w.W
+	d := newDM(rc)
+	d.CRC = t.Bool(1, 2)
+	leaf := uint32(64)
+	setup := w.Client("setup")
+	if v := createRepo(prop, d, setup, "r1"); v != nil {
+		return v
+	}
+	w.OnEvent(immutableBundles(prop, d.Meta))
+	id := newID(t)
+	k := t.Range(2, 3)
+	var tasks []*simkit.Task
+	var trees []Tree
+	for i := 0; i < k; i++ {
+		tr := Tree{"data/one.txt": []byte(fmt.Sprintf("one as uploader %d sees it", i))}
+		for j, n := 0, t.Range(0, 3); j < n; j++ {
+			tr[fmt.Sprintf("data/f%d-%d", i, j)] = t.Bytes(t.Range(0, 150))
+		}
+		trees = append(trees, tr)
+		src := memDisk()
+		_ = src.MkdirAll(".", 0o755)
+		_ = writeTree(src, tr)
+		c := w.Client(fmt.Sprintf("up%d", i))
+		_, fn := d.upload(c, d.Stores(c), "r1", src, uploadOpts{leaf: leaf, concUp: t.Pick(1, 3), message: fmt.Sprintf("uploader %d", i), bundleID: id})
+		tasks = append(tasks, w.Go(c, "upload", fn))
+	}
+	w.Note("%d concurrent uploads with the same bundle id %s", k, id)
+	if v := w.Run(); v != nil {
+		if v.Property == "" {
+			v.Property = prop
+		}
+		return v
+	}
+	winners := []int{}
+	for i, tk := range tasks {
+		if pv := taskProblem(prop, tk, "Upload"); pv != nil {
+			return pv
+		}
+		if tk.Err == nil {
+			winners = append(winners, i)
+		}
+	}
+	if len(winners) > 1 {
+		return Viol(prop, "two-uploads-one-id", "Upload", id, "%d concurrent uploads with the same bundle id report success (%v)", len(winners), winners)
+	}
+	if w.Stats.Concurrent > 0 {
+		w.Probe("nontrivial")
+	}
+	obs := w.Client("observer")
+	visible := d.Meta.Peek("bundles/r1/"+id+"/bundle.yaml") != nil
+	if len(winners) == 1 && !visible {
+		return Viol(prop, "success-but-not-committed", "Upload", id, "uploader %d reported success but the bundle has no descriptor", winners[0])
+	}
+	if !visible {
+		w.Probe("no-uploader-won")
+		return nil
+	}
+	dst := memDisk()
+	_, fn := d.downloadFn(d.Stores(obs), "r1", id, dst, downloadOpts{concDown: 2})
+	pt, v := doOp(prop, w, obs, "publish", fn)
+	if v != nil {
+		return v
+	}
+	if pt.Err != nil {
+		return Viol(prop, "partial-bundle-visible", "Publish", id, "the bundle is visible but cannot be downloaded: %v", pt.Err)
+	}
+	got, _ := readTree(dst)
+	data, _ := splitMeta(got)
+	if len(winners) == 1 {
+		if df := diffTrees(trees[winners[0]], data); df != "" {
+			return Viol(prop, "visible-bundle-differs", "Publish", id, "uploader %d won the bundle id, the visible bundle downloads to something else than its tree: %s", winners[0], df)
+		}
+		w.Probe(fmt.Sprintf("uploader-%d-won", winners[0]))
+		return nil
+	}
+	// the descriptor landed although every uploader reports a failure: still one uploader's complete tree
+	for _, tr := range trees {
+		if diffTrees(tr, data) == "" {
+			return nil
+		}
+	}
+	return Viol(prop, "visible-bundle-differs", "Publish", id, "no uploader reports success, a bundle is visible and downloads to none of the uploaders' trees")
 }
 
 // immutableBundles is the per-event invariant of C06: once bundles/{repo}/{id}/bundle.yaml exists, nothing
